@@ -4,8 +4,9 @@ domain : XDP programs guarded by minimumPacketSize G in 1..200 or by explicit
          packetSize comparisons (> >= < <=); PacketVar(p, fmt) for fmt in
          B H I Q b h i q x {native, <, >, !} and packet array elements
          pB pH pI pQ with p + size <= G; operations read (into a 64 bit map
-         variable), write (constant, map variable, expression) and in-place
-         update; packets of every length around the guard with random bytes.
+         variable), write (constant, map variable, expression), in-place
+         update and comparison with a small non-negative constant (with /
+         Else); packets of every length around the guard with random bytes.
 oracle : struct on a copy of the packet; all other bytes unchanged; the body
          runs when the guard's documented meaning says so and never when the
          packet is shorter than the accesses need.
@@ -87,9 +88,18 @@ def case_strategy(draw):
     for _ in range(draw(st.integers(1, 6))):
         t = draw(st.integers(0, nt - 1))
         k = draw(st.sampled_from(["read", "read", "wconst", "wvar", "wexpr",
-                                  "iadd", "isub", "wcopy"]))
+                                  "iadd", "isub", "wcopy", "cmp"]))
         if k == "read":
             ops.append(["read", t, nout])
+            nout += 1
+        elif k == "cmp":
+            # the variable compared with a small non-negative constant
+            ops.append(["cmp", t, nout,
+                        draw(st.sampled_from([">", "<", ">=", "<=", "==",
+                                              "!="])),
+                        draw(st.sampled_from([0, 1, 5, 127, 128, 255, 256,
+                                              32767, 65535, 2**31 - 1])
+                             | st.integers(0, 70000))])
             nout += 1
         elif k == "wconst":
             ops.append(["wconst", t, draw(const())])
@@ -162,6 +172,9 @@ def contents(p):
 
 
 FACTS = set()
+CMP = {">": lambda a, b: a > b, "<": lambda a, b: a < b,
+       ">=": lambda a, b: a >= b, "<=": lambda a, b: a <= b,
+       "==": lambda a, b: a == b, "!=": lambda a, b: a != b}
 
 
 def model_read(pkt, t):
@@ -209,6 +222,12 @@ def run_case(case):
             t = targets[o[1]]
             if o[0] == "read":
                 setattr(e, f"o{o[2]}", get(e, p, t))
+            elif o[0] == "cmp":
+                cond = CMP[o[3]](get(e, p, t), o[4])
+                with cond as Else:
+                    setattr(e, f"o{o[2]}", 1)
+                with Else:
+                    setattr(e, f"o{o[2]}", 2)
             elif o[0] == "wconst":
                 put(e, p, t, o[2])
             elif o[0] == "wvar":
@@ -256,6 +275,9 @@ def run_case(case):
             f = targets[o[1]]["fmt"][-1]
             outs[o[2]] = "q" if f.islower() else "Q"
             ns[f"o{o[2]}"] = ns["amap"].globalVar(outs[o[2]])
+        elif o[0] == "cmp":
+            outs[o[2]] = "Q"
+            ns[f"o{o[2]}"] = ns["amap"].globalVar("Q")
     for t in targets:
         if t["kind"] == "var":
             ns[t["name"]] = PacketVar(t["off"], t["fmt"])
@@ -328,6 +350,9 @@ def run_case(case):
                     t = targets[o[1]]
                     if o[0] == "read":
                         exp_out[o[2]] = model_read(model, t)
+                    elif o[0] == "cmp":
+                        exp_out[o[2]] = 1 if CMP[o[3]](
+                            model_read(model, t), o[4]) else 2
                     elif o[0] == "wconst":
                         model_write(model, t, o[2])
                     elif o[0] == "wvar":
@@ -354,8 +379,17 @@ def run_case(case):
                 pos = e.__dict__[f"o{k}"]
                 got = int.from_bytes(out[pos:pos + 8], "little")
                 if got != want & (2**64 - 1):
-                    t = [targets[o[1]] for o in ops
-                         if o[0] == "read" and o[2] == k][0]
+                    op = [o for o in ops if o[0] in ("read", "cmp")
+                          and o[2] == k][0]
+                    t = targets[op[1]]
+                    if op[0] == "cmp":
+                        return fail(
+                            case, p, classes, signed_swapped,
+                            f"`{t.get('name', t['fmt'])} {op[3]} {op[4]}` "
+                            f"took the {'body' if got == 1 else 'Else' if got == 2 else 'no'}"
+                            f" branch, the variable ({t['fmt']} at "
+                            f"{t['off']}) holds {model_read(model, t)}",
+                            read_fmt=t["fmt"])
                     return fail(case, p, classes, signed_swapped,
                                 f"read of {t} gave {got:#x}, struct.unpack "
                                 f"gives {want} ({want & (2**64 - 1):#x})",
